@@ -97,6 +97,30 @@ def gen(tier, rng):
                                    "return unwrap(quotient(wrap<%s>(a), wrap<%s>(b)));" % (TA, TB),
                                    ["using W = %s; return (W)(((W)a << %d) / (W)b);" % (RR, db), "using W = %s; return (W)(((W)a * ((W)1 << %d)) / (W)b);" % (RR, db)],
                                    pre=pre, cfg=cfg))
+        # elastic_scaled_integer operands of / and %: every signedness pairing; the reference is the mathematical
+        # truncating quotient / remainder of the rep values, computed in a 64-bit signed type that holds every operand
+        for (da, db, ea, eb) in ([(15, 7, -8, -3), (7, 15, -3, -8), (31, 31, -16, -16), (8, 8, -2, -2)] if tier == "quick" else
+                                 [(15, 7, -8, -3), (7, 15, -3, -8), (31, 31, -16, -16), (8, 8, -2, -2), (10, 20, 0, -10), (24, 8, -20, 0), (1, 31, 0, 0), (31, 1, 5, -5)]):
+            for sa in ("int", "unsigned"):
+                for sb in ("int", "unsigned"):
+                    TA = "elastic_scaled_integer<%d, power<%d>, %s>" % (da, ea, sa)
+                    TB = "elastic_scaled_integer<%d, power<%d>, %s>" % (db, eb, sb)
+                    ra, rb = "decltype(unwrap(std::declval<%s>()))" % TA, "decltype(unwrap(std::declval<%s>()))" % TB
+                    lim_a, lim_b = 2 ** da - 1, 2 ** db - 1
+                    pre = ["b != 0", "a <= %d" % lim_a, "b <= %d" % lim_b] + (["a >= -%d" % lim_a] if sa == "int" else []) + (["b >= -%d" % lim_b] if sb == "int" else [])
+                    for op, eres in (("/", ea - eb), ("%", ea)):
+                        RT = "decltype(std::declval<%s>() %s std::declval<%s>())" % (TA, op, TB)
+                        RR = "decltype(unwrap(std::declval<%s>()))" % RT
+                        key = "%s/elastic/%d%s,%d%s/e%d,%d/%s" % (cfg, da, sa[0], db, sb[0], ea, eb, op)
+                        obs.append(kern.Ob(key, RR, [(ra, "a"), (rb, "b")], "return unwrap(wrap<%s>(a) %s wrap<%s>(b));" % (TA, op, TB),
+                                           ["return (%s)((long long)a %s (long long)b);" % (RR, op)], pre=pre, cfg=cfg,
+                                           meta=dict(anchor="include/cnl/_impl/elastic_tag/policy.h (divide_op / modulo_op), elastic_tag/custom_operator.h")))
+                        if cfg == "clang":
+                            facts.append(factmod.Fact("type/elastic/%d%s,%d%s/e%d,%d/%s/exponent" % (da, sa[0], db, sb[0], ea, eb, op), "cnl::_impl::tag_of_t<%s>::exponent" % RT, eres))
+                            # the remainder / quotient of a negative dividend or a negative divisor can be negative
+                            if op == "%":
+                                facts.append(factmod.Fact("type/elastic/%d%s,%d%s/e%d,%d/%%/signed" % (da, sa[0], db, sb[0], ea, eb), "cnl::numbers::signedness_v<%s>" % RR, None,
+                                                          judge=lambda v, need=(sa == "int"): None if (v == 1 or not need) else "a %% b of a signed dividend is stored in an unsigned rep"))
     return obs, facts
 
 
